@@ -500,3 +500,42 @@ async def pump_exchange(pyo_ctx, inner_factory, request: bytes, *, reader: str =
                 "dropped": sum(len(x) for x in end.tcp.dropped), "made": end.made, "raised": end.raised})
     end.finish()
     return res
+
+
+# ----------------------------------------------------------------------------------------------
+# how GeminiServerProtocol hands a response to its transport (measured, for Gen/Tls.lean)
+# ----------------------------------------------------------------------------------------------
+def measure_write_chunk() -> int:
+    """Size of the pieces in which `_send_response` writes a body to a transport that never pauses:
+    0 = the body is written in one piece.  Measured on the real protocol with a recording transport."""
+    import asyncio
+
+    from nauyaca.protocol.response import GeminiResponse
+    from nauyaca.server.protocol import GeminiServerProtocol
+
+    sizes_seen = []
+    for n in (1, 70001, 300007):
+        body = b"x" * n
+        tcp = FakeTCP()
+
+        async def go():
+            p = GeminiServerProtocol(lambda req: GeminiResponse(20, "a/b", body), None)
+            p.connection_made(tcp)
+            p.data_received(b"gemini://localhost/\r\n")
+            await asyncio.sleep(0)
+            p.connection_lost(None)
+
+        asyncio.run(go())
+        w = [len(x) for x in tcp.out]
+        if sum(w[1:]) != n or not tcp.closed:
+            raise RuntimeError(f"unexpected write pattern for a {n}-byte body: {w[:6]}")
+        sizes_seen.append(w[1:])
+    if all(len(w) == 1 for w in sizes_seen):
+        return 0
+    c = sizes_seen[-1][0]
+    for w in sizes_seen:
+        total = sum(w)
+        want = [c] * (total // c) + ([total % c] if total % c else [])
+        if w != want:
+            raise RuntimeError(f"body writes are not uniform pieces: {w[:6]}")
+    return c
